@@ -166,7 +166,7 @@ func verifRefTargets(lines []string) (out []verifRefTarget, ok bool) {
 // symbolically: for every well-formed document the targeter yields exactly the
 // described targets in order and then reports exhaustion.
 //
-//verif:harness param.N=1..4 thorough.param.N=1..6 unwind=64 thorough.deadline=7000
+//verif:harness param.N=1..4 thorough.param.N=1..5 unwind=64 thorough.deadline=3000
 func verif_harness_C14_http_grammar() {
 	N := verif_param("N")
 	kinds := []string{"GET http://a/", "POST http://b/x", "Ka: va", "kb:vb:c", "# a comment", "", "@/body/file", "  # indented comment", " \t"}
